@@ -5,6 +5,7 @@
 import NcVerif.Driver.CapsD
 import NcVerif.Driver.FramingD
 import NcVerif.Driver.SessionD
+import NcVerif.Driver.RpcErrorD
 open NcVerif.Driver
 
 structure DState where
@@ -14,6 +15,7 @@ def stepLine (st : DState) (line : String) : DState × String :=
   match (line.trimAscii.toString.splitOn " ").filter (· ≠ "") with
   | "caps" :: rest => (st, capsCmd rest)
   | "fr" :: rest => (st, framingCmd rest)
+  | "re" :: rest => (st, rpcErrorCmd rest)
   | "ss" :: rest => let (s', out) := sessionCmd st.sess rest; ({ st with sess := s' }, out)
   | _ => (st, "bad-model")
 
